@@ -5,13 +5,15 @@
     level is similar enough.  [ReentrancyModel.sugg_build] is that mutation as an operation of its
     own; here it is folded into the parse that causes it:
 
-      [parse_mut_dym fires c argv] = [parse_mut c argv], and if the parser result is an
-      [UnknownArgument] error and [fires], the subcommands of the deepest parser level reached
-      (the level at [trace_path]) are built in place.
+      [parse_mut_dym fires c argv] = [parse_mut c argv], and if [fires], the subcommands of the
+      deepest parser level reached (the level at [trace_path]: the level that raised the error, also
+      when an ancestor with [ignore_errors] swallowed it) are built in place.
 
-    [fires] stands for "the error was raised by [did_you_mean_error] and [did_you_mean(arg, longs)]
-    was empty": the similarity [strsim::jaro] is not part of the shared parser model, and every
-    theorem below holds for both values, i.e. whatever the similarity says.
+    [fires] stands for "the parse ended in [did_you_mean_error] (an unknown long flag) and
+    [did_you_mean(arg, longs)] was empty": the similarity [strsim::jaro] is not part of the shared
+    parser model, and every theorem below holds for both values -- whatever the similarity says, and
+    also if the mutation happened after a parse of any other shape.  [unknown_arg_result] recognises
+    the shape on the parser result of the examples.
 
     - [sugg_after_touch] / [dym_state]: on the parse's own path the guards of [sugg_build_at] never
       block: the state is the touched tree with every subcommand of the failing level built
@@ -39,7 +41,7 @@ Definition unknown_arg_result (r : res ps) : bool :=
 
 Definition parse_mut_dym (fires : bool) (c : cmd) (argv : list bytes) : outcome * list visit * cmd :=
   let '(out, tr, c') := parse_mut c argv in
-  (out, tr, if fires && unknown_arg_result (parse_result c argv) then sugg_build c' (trace_path tr) else c').
+  (out, tr, if fires then sugg_build c' (trace_path tr) else c').
 
 Inductive xop :=
 | XParse (fires : bool) (argv : list bytes)
@@ -71,12 +73,12 @@ Lemma step_parse_fst c argv : fst (step c (ParseMut argv)) = snd (parse_mut c ar
 Proof. unfold step. destruct (parse_mut c argv) as [[out tr] c']. reflexivity. Qed.
 Lemma xstep_parse_state fires c argv :
   fst (xstep c (XParse fires argv)) =
-  if fires && unknown_arg_result (parse_result c argv)
+  if fires
   then sugg_build (fst (step c (ParseMut argv))) (trace_path (snd (fst (parse_mut c argv))))
   else fst (step c (ParseMut argv)).
 Proof.
   rewrite step_parse_fst. unfold xstep, parse_mut_dym. destruct (parse_mut c argv) as [[out tr] c']. cbn [fst snd].
-  destruct (fires && _); reflexivity.
+  destruct fires; reflexivity.
 Qed.
 
 (** * on the parse's own path the mutation reaches the failing level *)
@@ -135,11 +137,10 @@ Qed.
 
 (** the state after a parse that failed this way *)
 Theorem dym_state c argv :
-  unknown_arg_result (parse_result c argv) = true ->
   snd (parse_mut_dym true c argv)
   = touch_build (build_self (fst (set_bin c argv))) (trace_path (snd (fst (parse_mut c argv)))).
 Proof.
-  intros Hu. unfold parse_mut_dym. rewrite Hu.
+  unfold parse_mut_dym.
   unfold parse_mut. destruct (set_bin c argv) as [c1 toks]. unfold do_parse_st. cbv beta iota zeta. cbn [fst snd andb].
   unfold sugg_build. apply sugg_after_touch; [apply build_self_built | left; reflexivity].
 Qed.
@@ -183,14 +184,14 @@ Lemma xstep_normal_form n b c x :
 Proof.
   intros Hg Hu Hb. destruct x as [fires argv|o].
   - rewrite xstep_parse_state.
-    destruct (fires && _); [rewrite norm_sugg|];
+    destruct fires; [rewrite norm_sugg|];
       exact (ops_preserve_normal_form n b c (ParseMut argv) Hg Hu eq_refl).
   - exact (ops_preserve_normal_form n b c o Hg Hu Hb).
 Qed.
 Lemma xstep_nbn c x : xis_build x = false -> is_set s_no_binary_name (fst (xstep c x)) = is_set s_no_binary_name c.
 Proof.
   intros Hb. destruct x as [fires argv|o].
-  - rewrite xstep_parse_state. destruct (fires && _); [rewrite sugg_nbn|]; exact (step_nbn c (ParseMut argv) eq_refl).
+  - rewrite xstep_parse_state. destruct fires; [rewrite sugg_nbn|]; exact (step_nbn c (ParseMut argv) eq_refl).
   - exact (step_nbn c o Hb).
 Qed.
 
